@@ -219,6 +219,19 @@ Hypothesis leb_total : forall a c, leb a c = false -> leb c a = true.
 Hypothesis leb_trans : forall a c d, leb a c = true -> leb c d = true -> leb a d = true.
 Hypothesis leb_mul_nonneg : forall a c d, leb a c = true -> leb 0 d = true -> leb (a * d) (c * d) = true.
 
+(* ParVector::norm: every rank squares its local norm, the squares are summed by Allreduce: for every partition of
+   the vector into contiguous blocks (empty ones allowed) this is the sum of squares of the whole vector *)
+Lemma sumsq_acc l : forall a, fold_left (fun acc q => acc + q * q) l a = a + sumsq l.
+Proof.
+  unfold Solve.sumsq. induction l as [|q l IH]; intros a; simpl; [ring|].
+  rewrite IH, (IH (0 + q * q)). ring.
+Qed.
+Lemma sumsq_app l1 l2 : sumsq (l1 ++ l2) = sumsq l1 + sumsq l2.
+Proof. unfold Solve.sumsq at 1. rewrite fold_left_app. fold (sumsq l1). apply sumsq_acc. Qed.
+Lemma sumsq_blocks (blocks : list (list F)) :
+  sumsq (concat blocks) = fold_right add 0 (map sumsq blocks).
+Proof. induction blocks as [|bl blocks IH]; simpl; [reflexivity|]. rewrite sumsq_app, IH. reflexivity. Qed.
+
 Theorem solve_truth_squares ztol2 tol cyc A b x maxit : stored_diag A -> leb 0 ztol2 = true ->
   let r := solve NPlain false ztol2 tol cyc A b x maxit in
   r_iter r < maxit ->
